@@ -60,7 +60,7 @@ def parseHexAux : List Char → List UInt8 → Option (List UInt8)
 def parseHex (s : String) : Option (List UInt8) :=
   if s == "-" then some [] else parseHexAux s.toList []
 
-def hexChar (n : Nat) : Char := "0123456789abcdef".toList.getD n '0'
+def hexChar (n : Nat) : Char := if n < 10 then Char.ofNat (48 + n) else if n < 16 then Char.ofNat (87 + n) else '0'
 
 def toHex (bs : List UInt8) : String :=
   if bs.isEmpty then "-" else
